@@ -63,7 +63,7 @@ func (c03) Info() core.Info {
 			"bytes of a PCR/OPCR/splice countdown that became present but was never set are unconstrained until set",
 			"initial packets are ISO-valid: AFC=11 with L<=182 or AFC=10 with L=183",
 		},
-		RequiredProbes: []string{"af_full_refusal", "exact_fit", "toggle_off_nonempty_private", "toggle_off_nonempty_extension", "toggle_repeat_same_value", "shrink_private_before_extension", "copy_af_too_large", "copy_af_fits", "L_eq_183", "L_le_7", "value_for_absent_field", "grow_private", "all_fields_present", "pcr_at_33_bit_limit"},
+		RequiredProbes: []string{"af_full_refusal", "exact_fit", "toggle_off_nonempty_private", "toggle_off_nonempty_extension", "toggle_repeat_same_value", "shrink_private_before_extension", "copy_af_too_large", "copy_af_fits", "L_eq_183", "L_le_7", "value_for_absent_field", "grow_private", "all_fields_present", "pcr_at_33_bit_limit", "copy_from_same_packet", "value_of_256_bytes_or_more"},
 	}
 }
 
@@ -218,17 +218,21 @@ func (c03) Gen(r *core.Rand, tier string) interface{} {
 				old = len(cur.Ext)
 			}
 			fit := room + old // the largest length that still fits
-			k := r.Pick(0, 1, 2, 5, fit, fit, fit+1, fit-1, fit/2, r.Intn(191))
+			k := r.Pick(0, 1, 2, 5, fit, fit, fit+1, fit-1, fit/2, r.Intn(191), 255, 256, 260, 300, 511, 512)
 			if k < 0 {
 				k = 0
 			}
-			if k > 190 {
-				k = 190
+			if k > 600 {
+				k = 600
 			}
 			op = C03Op{Op: which, Data: r.Bytes(k)}
 		case 13:
-			src := genAF(r, r.Pick(1, 7, 20, 100, 182, 183, cur.L, r.Range(1, 183)))
-			op = C03Op{Op: "copy", Src: &src}
+			if r.Chance(1, 4) {
+				op = C03Op{Op: "copy_self"} // SetAdaptationField with the packet's own field
+			} else {
+				src := genAF(r, r.Pick(1, 7, 20, 100, 182, 183, cur.L, r.Range(1, 183)))
+				op = C03Op{Op: "copy", Src: &src}
+			}
 		default:
 			op = C03Op{Op: r.PickS("has_pcr", "has_opcr", "has_splice", "has_priv", "has_ext"), V: true}
 		}
@@ -439,7 +443,13 @@ func (c03) Exec(script interface{}, c *core.Ctx) {
 				c.Probe("toggle_off_nonempty_extension")
 				qual = ":nonempty"
 			}
-		case "priv":
+		case "priv", "ext":
+			if len(op.Data) >= 256 {
+				c.Probe("value_of_256_bytes_or_more")
+			}
+			if op.Op != "priv" {
+				break
+			}
 			if m.HasPriv && m.HasExt && len(op.Data) < len(m.Priv) {
 				c.Probe("shrink_private_before_extension")
 			}
@@ -500,6 +510,10 @@ func (c03) Exec(script interface{}, c *core.Ctx) {
 				cerr = af.SetTransportPrivateData(append([]byte(nil), op.Data...))
 			case "ext":
 				cerr = af.SetAdaptationFieldExtension(append([]byte(nil), op.Data...))
+			case "copy_self":
+				c.Probe("copy_from_same_packet")
+				own, _ := pkt.AdaptationField()
+				cerr = pkt.SetAdaptationField(own)
 			case "copy":
 				if op.Src != nil {
 					src := *op.Src
@@ -795,6 +809,9 @@ func (c03) Shrink(script interface{}) []interface{} {
 		out = append(out, n)
 	}
 	for i, o := range s.Ops {
+		if len(s.Ops) > 200 {
+			break
+		}
 		if len(o.Data) > 1 {
 			n := cp()
 			n.Ops[i].Data = o.Data[:len(o.Data)/2]
